@@ -258,9 +258,8 @@ theorem recover_shape (H : Body → String) (s : State) (now : Int) (names : Lis
   · apply fold_listP (fun ps => ps.all recInner = true)
     · intro a b ha hb; simp [ha, hb]
     · intro acc x
-      refine ⟨_, ?_, List.append_assoc _ _ _⟩
-      simp only [List.all_append, Bool.and_eq_true]
-      exact ⟨toCache_inner _ _ _ _ _, processCore_inner _ _ _ _ _⟩
+      exact ⟨_, recoverValOne_all recInner H _ now x rfl rfl rfl (toCache_inner _ _ _ _ _)
+        (processCore_inner _ _ _ _ _), rfl⟩
     · apply fold_listP (fun ps => ps.all recInner = true)
       · intro a b ha hb; simp [ha, hb]
       · intro acc x
